@@ -135,3 +135,30 @@ def run(ck):
             norm(canon(f, f.call_args(ap_[0])[4])) == V('counter') and norm(canon(f, f.call_args(ap_[0])[0])) == ('f', 'key_')
         sites[name] = ok
         ck.ob('C09.counter', 'C09.counter/' + name, ok, f.loc(), '%s applies ChaCha20 with key_, the given nonce and derive_counter(chunk_id)' % name)
+    purity(ck, P, fn)
+
+
+def purity(ck, P, fn):
+    """R-PURE: the keystream is a function of (key, nonce, counter) only — no state survives a call, and the block function
+    has a single exit after the store loop."""
+    fns = [fn(n) for n in ('rotl32', 'load32_le', 'store32_le', 'quarter_round', 'chacha20_block', 'apply')]
+    for f in fns:
+        statics = [i for i in f.walk() if f.nodes[i]['k'] == 'VarDecl' and f.nodes[i].get('static') and not f.nodes[i].get('constexpr')
+                   and not (f.nodes[i].get('const') and 'init' in f.nodes[i])]
+        gw = []
+        for i in f.walk():
+            nd = f.nodes[i]
+            if nd['k'] in ('BinaryOperator', 'CompoundAssignOperator', 'CXXOperatorCallExpr') and (nd.get('op') == '=' or nd['k'] == 'CompoundAssignOperator'):
+                ks = f.kids(i) if nd['k'] != 'CXXOperatorCallExpr' else f.kids(i)[1:]
+                if ks:
+                    for j in f.walk(ks[0]):
+                        if f.nodes[j]['k'] == 'DeclRefExpr' and f.nodes[j].get('g'):
+                            gw.append(i)
+        name = f.q.split('::')[-1]
+        ck.ob('C09.pure', 'C09.pure/' + name, not statics and not gw, f.loc((statics + gw)[0]) if statics + gw else f.loc(),
+              '%s keeps no state between calls (no static / thread_local local, no write to a global)%s'
+              % (name, (' — found `%s`' % f.nodes[statics[0]].get('n')) if statics else ''))
+    bl = fn('chacha20_block')
+    rets = [i for i in bl.walk() if bl.nodes[i]['k'] in ('ReturnStmt', 'GotoStmt')]
+    ck.ob('C09.pure', 'C09.pure/block-single-exit', not rets, bl.loc(rets[0]) if rets else bl.loc(),
+          'chacha20_block has no early exit: every call runs the 20 rounds, the feed-forward and the store loop')
